@@ -95,7 +95,7 @@ impl ser::Serialize for Duration {
                 s.serialize_field(Duration::SECS_FIELD, &self.0.num_seconds())?;
                 s.serialize_field(
                     Duration::NANOS_FIELD,
-                    &(self.0.num_nanoseconds().unwrap_or(0) % 1_000_000_000),
+                    &i64::from(self.0.subsec_nanos()),
                 )?;
                 s.end()
             }
